@@ -317,9 +317,8 @@ def step (s : S) : Rec → S
       | none => s
     else
       -- an EXIT record announces nothing: the EXIT of a thread whose process has no live incarnation (its main
-      -- thread exited first, as the kernel emits for `exit_group` with a zombie leader) creates no entry.
-      -- (samply's `handle_exit` does create one through `get_by_pid`: candidate finding
-      -- C17-phantom-process-on-thread-exit, `stepLegacy` below.)
+      -- thread exited first, as the kernel emits for `exit_group` with a zombie leader; or the pid was never
+      -- seen) creates no entry. (Before fix 8ede2c85 samply created a process entry here: `stepLegacy` below.)
       match curProc s pid with
       | none => s
       | some _ =>
@@ -405,31 +404,23 @@ def stepOk (s : S) : Rec → Bool
   | .comm pid tid _ isExec _ => !isExec || pid == tid
   | _ => true
 
-/-- the EXIT of a non-main thread of a pid that has no live process incarnation (the excluded point of
-`C17_refines`: samply creates a phantom process entry there) -/
-def orphanExit (s : S) : Rec → Bool
-  | .exit pid tid _ => pid != tid && (curProc s pid).isNone
-  | _ => false
-
 structure G where
   s : S
   ok : Bool := true
-  /-- an orphan thread EXIT has been seen -/
-  orphan : Bool := false
 
-def gStep (g : G) (r : Rec) : G :=
-  { s := step g.s r, ok := g.ok && stepOk g.s r, orphan := g.orphan || orphanExit g.s r }
+def gStep (g : G) (r : Rec) : G := { s := step g.s r, ok := g.ok && stepOk g.s r }
 
 def grammarOk (ref : Nat) (rs : List Rec) : Bool :=
   (rs.foldl gStep { s := { ref, cur := ref } }).ok
 
-/-- no EXIT of a non-main thread arrives while its pid has no live process incarnation -/
-def orphanFree (ref : Nat) (rs : List Rec) : Bool :=
-  !(rs.foldl gStep { s := { ref, cur := ref } }).orphan
+/-- the EXIT of a non-main thread of a pid that has no live process incarnation -/
+def orphanExit (s : S) : Rec → Bool
+  | .exit pid tid _ => pid != tid && (curProc s pid).isNone
+  | _ => false
 
-/-- what samply does today (candidate finding C17-phantom-process-on-thread-exit): an orphan thread EXIT first
-creates a process entry for the pid on demand (`<pid>`, start 0, never ended). Only used to *label* a judge
-failure and in the `decide`d counterexample `C17_phantom_counterexample`. -/
+/-- The eager reading of what samply did before fix 8ede2c85 (finding C17-phantom-process-on-thread-exit): an
+orphan thread EXIT first creates a process entry for the pid on demand (`<pid>`, start 0, never ended). Only
+used by `C17_legacy_counterexample_phantom_process`. -/
 def stepLegacy (s : S) (r : Rec) : S :=
   if orphanExit s r then
     match r with
